@@ -15,11 +15,11 @@ PROPERTY = 'C07'
 ASSUMPTIONS = ['the database is modelled by symx.sqlmini: filter / order_by / first / all of the SQLAlchemy expressions the library builds, evaluated over stand-in rows (ties in ORDER BY keep insertion order; validated by replay on sqlite)',
                'bumpfee: re-signing (sign_and_update) is replaced by the real Transaction.update_totals: signatures do not influence amounts',
                'transaction_create: key lookup (_objects_by_key_id), change-key generation (get_keys) and the fee provider are stubs returning one fixed public key / change address / fee rate; the final signature_hash (txid) is skipped',
-               'int(a * 1000.0 / b) is over-approximated by floor or floor + 1 (symx.lia.SFloatQ); no obligation depends on it',
+               'int(a * 1000.0 / b) and int(c * x) for a constant double c are over-approximated by floor or floor + 1 of the exact value (symx.lia.SFloatQ: sound because rounding is monotone and integers below 2^53 are exact); a counterexample resting on the extra freedom would not reproduce in the replay',
                'amounts, fees and sizes are arbitrary integers in the stated ranges']
-BOUNDS = {'quick': 'select_inputs: every set of <= 3 UTXOs (value 0..21e14, confirmations 0..10, spent or not), amount 1..21e14, min_confirms 0..3, max_utxos in {None, 1, 2}; transaction_create: <= 2 UTXOs, one recipient, amount 1..21e14, explicit fee 0..10^9, max_utxos in {None, 1}, one change output, inputs selected automatically or named explicitly; add_input_from_wallet: <= 2 candidate outputs (any index / value) against one already spent outpoint; send: every min_confirms 0..1000 / locktime / max_utxos / change setting x four estimate-vs-exact fee pairs; bumpfee: one input, one recipient and 0..5 change outputs, old fee >= 1, vsize 60..100000, fee / extra_fee 0..10^12',
+BOUNDS = {'quick': 'select_inputs: every set of <= 3 UTXOs (value 0..21e14, confirmations 0..10, spent or not), amount 1..21e14, min_confirms 0..3, max_utxos in {None, 1, 2}; transaction_create: <= 2 UTXOs, one recipient, amount 1..21e14, explicit fee 0..10^9 or automatic fee from a provider rate 1..10^7 sat/kB, max_utxos in {None, 1}, one change output, inputs selected automatically or named explicitly; add_input_from_wallet: <= 2 candidate outputs (any index / value) against one already spent outpoint; send: every min_confirms 0..1000 / locktime / max_utxos / change setting x four estimate-vs-exact fee pairs; bumpfee: one input, one recipient and 0..5 change outputs, old fee >= 1, vsize 60..100000, fee / extra_fee 0..10^12',
           'thorough': 'select_inputs <= 4 UTXOs, transaction_create <= 3 UTXOs, bumpfee 0..7 change outputs'}
-OUTSIDE = 'automatic / named fees (provider estimate x size in float arithmetic), explicit Input objects, several or random change outputs (numpy dirichlet), send / sweep, multisig and non-segwit wallets, the fee-rate limit checks themselves, WalletTransaction.bumpfee wrapper, that a sufficient UTXO set is always found (C07 does not demand it; see DESIGN.md)'
+OUTSIDE = 'named fee priorities, explicit Input objects (see C10 for the threshold), several or random change outputs (numpy dirichlet), send / sweep, multisig and non-segwit wallets, the fee-rate limit checks themselves, WalletTransaction.bumpfee wrapper, that a sufficient UTXO set is always found (C07 does not demand it; see DESIGN.md)'
 MAXV = 21 * 10 ** 14
 
 
@@ -215,7 +215,7 @@ class _ChangeKey:
         self.key_id, self.address = key_id, CHANGE_ADDR
 
 
-def h_create(ex, n, explicit=False):
+def h_create(ex, n, explicit=False, auto_fee=False):
     """Wallet.transaction_create([(recipient, amount)], fee=<explicit integer>) over every set of n UTXOs: on success
     inputs = outputs + reported fee, the fee is not negative and is at least the requested one, no output is negative,
     the recipient appears exactly once with the requested amount, every other output is a change output of this wallet,
@@ -224,13 +224,18 @@ def h_create(ex, n, explicit=False):
     import bitcoinlib.transactions as T
     import random as _random
     amount = ex.lint('amount', 1, MAXV)
-    fee = ex.lint('fee', 0, 10 ** 9)
+    fee = ex.lint('fee', 0, 10 ** 9) if not auto_fee else None
+    rate = ex.lint('provider_fee_per_kb', 1, 10 ** 7) if auto_fee else 2000
     max_utxos = ex.choose('max_utxos', [None, 1])
     scratch = None
     if ex.concrete:
         w, rows, scratch = _real_wallet_with_utxos(ex, n)
         w.anti_fee_sniping = False
-        amount, fee = int(amount), int(fee)
+        amount, fee = int(amount), (int(fee) if fee is not None else None)
+        if auto_fee:
+            import bitcoinlib.wallets as _WL
+            _FakeService.fee_per_kb = int(rate)
+            _WL.Service = _FakeService              # (replay: the provider answer is the recorded fee rate)
         total_avail = sum(r['value'] for r in rows if not r['spent'] and r['confirmations'] >= 1 and r['value'] >= 1000)
     else:
         utx = mk_utxos(ex, n)
@@ -240,6 +245,7 @@ def h_create(ex, n, explicit=False):
         w._objects_by_key_id = lambda key_id: ([pubkey], [u.key for u in utx if u.key_id == key_id][0])
         w.get_keys = lambda *a, **k: [_ChangeKey(99)]
         w.get_key = lambda *a, **k: _ChangeKey(99)
+        _FakeService.fee_per_kb = rate
         shims.install(WL, Service=_FakeService, random=_random.Random(7))
         shims.install(T, random=_random.Random(7))
         shims.install(WL.WalletTransaction, signature_hash=lambda self, *a, **k: b'\x00' * 32)
@@ -257,7 +263,9 @@ def h_create(ex, n, explicit=False):
         ins, outs = t.inputs, t.outputs
         tin, tout = sum(i.value for i in ins), sum(o.value for o in outs)
         ex.check(tin == tout + t.fee, 'inputs-equal-outputs-plus-reported-fee')
-        ex.check(s_and(t.fee >= 0, t.fee >= fee), 'fee-not-negative-and-at-least-requested')
+        ex.check(s_and(t.fee >= 0, t.fee >= fee) if fee is not None else t.fee >= 0, 'fee-not-negative-and-at-least-requested')
+        if fee is None:
+            fee = t.fee
         ex.check(s_and(*[o.value >= 0 for o in outs]), 'no-negative-output')
         rec = [o for o in outs if o.address == RECIPIENT]
         ex.check(len(rec) == 1 and rec[0].value == amount, 'recipient-once-with-exact-amount')
@@ -422,5 +430,6 @@ def jobs(tier):
     J += [Job('add_input_from_wallet_%dutxos' % n, h_add_input_from_wallet, W=8, setup=wsetup, params=dict(n=n)) for n in (1, 2)]
     J.append(Job('send_forwards_request', h_send_forwards_request, W=8, setup=wsetup))
     J += [Job('create_explicit_inputs_%d' % n, h_create, W=8, setup=wsetup, params=dict(n=n, explicit=True), budget_s=3000) for n in (1, 2)]
+    J += [Job('create_auto_fee_%dutxos' % n, h_create, W=8, setup=wsetup, params=dict(n=n, auto_fee=True), budget_s=3000) for n in [1, 2]]
     J += [Job('create_%dutxos' % n, h_create, W=8, setup=wsetup, params=dict(n=n), budget_s=3000) for n in ([1, 2] if q else [1, 2, 3])]
     return J
